@@ -8,7 +8,8 @@ told = {1: 'independent sub-agent (given only the text of the property)',
         2: 'independent sub-agent (round 2: told only which change the round-1 contributor had submitted, so as to pick a different site)',
         3: 'independent sub-agent (round 3: told only which changes the round-1 and round-2 contributors had submitted, so as to pick a different site and mechanism)',
         4: 'independent sub-agent (round 4: told only which three changes the earlier contributors had submitted, so as to pick a different site and mechanism)',
-        5: 'independent sub-agent (round 5: told only which four changes the earlier contributors had submitted, so as to pick a different site and mechanism)'}
+        5: 'independent sub-agent (round 5: told only which four changes the earlier contributors had submitted, so as to pick a different site and mechanism)',
+        6: 'independent sub-agent (round 6: told only which five changes the earlier contributors had submitted, so as to pick a different site and mechanism)'}
 for name, m in data.items():
     d = '/verif/seeded/' + name
     conf = open(d + '/confirm.txt').read()
